@@ -17,6 +17,9 @@
 #include "conf.h"
 #include "mode.h"
 #include "variable-value.h"
+#ifdef ROBSD_VERIF
+#include "verif.h"
+#endif
 
 #define SIG_NO_RESTART	1
 
@@ -63,7 +66,13 @@ step_exec(const char *step_name, struct config *config, struct arena *scratch,
 	error = step_fork(&c, command, &pid);
 	if (error)
 		return error;
+#ifdef ROBSD_VERIF
+	VERIF_POINT("exec.before_waitpid");
+#endif
 	if (waitpid(-pid, &status, 0) == -1) {
+#ifdef ROBSD_VERIF
+		VERIF_POINT("exec.wait_interrupted");
+#endif
 		if (gotsig) {
 			warnx("caught signal %d, kill process group",
 			    gotsig);
@@ -73,6 +82,9 @@ step_exec(const char *step_name, struct config *config, struct arena *scratch,
 			err(1, "waitpid");
 		}
 	}
+#ifdef ROBSD_VERIF
+	VERIF_POINT("exec.after_wait");
+#endif
 	error = exitstatus(status, gotsig);
 	if (error)
 		warnx("process group exited %d", error);
@@ -137,8 +149,14 @@ killwaitpg1(int pgid, int signo, int timoms, int *status)
 {
 	unsigned int slpms = 100;
 
+#ifdef ROBSD_VERIF
+	VERIF_POINT(signo == SIGTERM ? "kill.before_term" : "kill.before_kill");
+#endif
 	if (kill(-pgid, signo) == -1)
 		err(1, "kill");
+#ifdef ROBSD_VERIF
+	VERIF_POINT(signo == SIGTERM ? "kill.after_term" : "kill.after_kill");
+#endif
 
 	for (;;) {
 		int w;
@@ -210,8 +228,17 @@ step_fork(struct step_context *c, char *const *command, pid_t *out)
 		err(1, "%s", command[0]);
 	}
 
+#ifdef ROBSD_VERIF
+	VERIF_POINT("exec.after_fork");
+#endif
 	siginstall(SIGPIPE, SIG_IGN, 0);
+#ifdef ROBSD_VERIF
+	VERIF_POINT("exec.after_sigpipe");
+#endif
 	siginstall(SIGTERM, sighandler, SIG_NO_RESTART);
+#ifdef ROBSD_VERIF
+	VERIF_POINT("exec.after_sigterm");
+#endif
 
 	/* Wait for the process group to become present. */
 	close(proc_pipe[1]);
@@ -229,6 +256,9 @@ step_fork(struct step_context *c, char *const *command, pid_t *out)
 	timeout = step_timeout(c);
 	if (timeout > 0) {
 		siginstall(SIGALRM, sighandler, 0);
+#ifdef ROBSD_VERIF
+		VERIF_POINT("exec.after_sigalrm");
+#endif
 		alarm((unsigned int)timeout);
 	}
 
